@@ -15,6 +15,7 @@ TStatic ==
        \A i \in 1..Len(Ev.vs) :
           LET v == Ev.vs[i]  q == Ev.qs[i] IN
           /\ q <= 0
+          /\ q >= -2000000                          \* a gain of zero or a non-number is logged as -2^29: never on the curve
           /\ IF Ev.proc = "comp" THEN Agrees(q, CompNum(v, Ev.R, Wc), CompDen(v, Ev.R, Wc), 2)
                                  ELSE Agrees(q, LimNum(v, Wc), LimDen(v, Wc), 2)
 TRange == /\ Ev.e = "Range"
